@@ -10,7 +10,20 @@
 (*              up    worker not told to terminate   (client['term'])      *)
 (*              now   clock, in ticks; a session is late when              *)
 (*                    now > hb + Timeout             (_TIMEOUT)            *)
-(* Requests:    Register / Lookup / Unregister / Heartbeat (one session    *)
+(*              A registration (_register) spawns a worker, waits for the  *)
+(*              worker's report of its endpoints on a report channel made  *)
+(*              for this registration, and fails ('worker startup failed', *)
+(*              worker killed) when the report is not there in time.  The  *)
+(*              report of a killed worker may still arrive later.          *)
+(*              nw, wsid, alive  workers spawned, their session, not killed*)
+(*              rq    report channels (sequences of worker ids = the       *)
+(*                    endpoints reported), reported[w]                     *)
+(*              pend  worker of the registration in progress (requests are *)
+(*                    served one at a time)                                *)
+(*              cfg[s], wk[s]  endpoints held for s / the worker spawned   *)
+(*                    for the successful registration of s                 *)
+(* Requests:    Register = Spawn, (Report), Finish | Timeout;              *)
+(*              Lookup / Unregister / Heartbeat (one session               *)
 (*              each) and the pass of the monitor thread, which reaps the  *)
 (*              late sessions.  The pass is one step: _monitor decides on  *)
 (*              an unlocked snapshot and reaps under the lock without      *)
@@ -25,15 +38,21 @@
 (*                    their proxy pubsubs were down: nobody gets it        *)
 (*              last, arg  the step taken (for the action properties)      *)
 (***************************************************************************)
-EXTENDS Naturals, FiniteSets
+EXTENDS Naturals, Sequences, FiniteSets
 
-CONSTANTS Sessions, Timeout, MaxT, MaxOps,
+CONSTANTS Sessions, Timeout, MaxT, MaxOps, MaxW,
+          DevSharedReportQueue,   \* one report channel for all registrations
           DevMonitorReapsAll,     \* one late session: the pass reaps every session
           DevHeartbeatAll,        \* a heartbeat refreshes every session
           DevUnregisterAll        \* unregister drops every session
 
-VARIABLES now, reg, hb, up, ghb, wanted, lost, ops, last, arg
-vars == <<now, reg, hb, up, ghb, wanted, lost, ops, last, arg>>
+VARIABLES now, reg, hb, up, ghb, wanted, lost, ops, last, arg,
+          nw, wsid, alive, rq, reported, pend, cfg, wk
+wvars == <<nw, wsid, alive, rq, reported, pend, cfg, wk>>
+vars  == <<now, reg, hb, up, ghb, wanted, lost, ops, last, arg, wvars>>
+
+W       == 1 .. MaxW
+Chan(w) == IF DevSharedReportQueue THEN 0 ELSE w
 
 Late(r, h, t)   == {s \in r : t > h[s] + Timeout}
 
@@ -42,63 +61,105 @@ Init ==
   /\ hb  = [s \in Sessions |-> 0] /\ ghb = [s \in Sessions |-> 0]
   /\ up  = [s \in Sessions |-> FALSE]
   /\ last = "Init" /\ arg = "none"
+  /\ nw = 0 /\ pend = 0
+  /\ wsid = [w \in W |-> "none"] /\ alive = [w \in W |-> FALSE]
+  /\ reported = [w \in W |-> FALSE]
+  /\ rq  = [c \in 0 .. MaxW |-> <<>>]
+  /\ cfg = [s \in Sessions |-> 0] /\ wk = [s \in Sessions |-> 0]
 
 Op(name, s) == ops < MaxOps /\ ops' = ops + 1 /\ last' = name /\ arg' = s
 
-Register(s) ==
-  /\ Op("Register", s)
+\* _register, first half: spawn the channel worker of session s
+Spawn(s) ==
+  /\ Op("Spawn", s)
+  /\ pend = 0 /\ nw < MaxW
   /\ s \notin reg                      \* else: 'client already registered', no change
-  /\ reg' = reg \cup {s} /\ wanted' = wanted \cup {s}
-  /\ hb'  = [hb EXCEPT ![s] = now] /\ ghb' = [ghb EXCEPT ![s] = now]
-  /\ up'  = [up EXCEPT ![s] = TRUE]
-  /\ UNCHANGED <<now, lost>>
+  /\ nw' = nw + 1 /\ pend' = nw + 1
+  /\ wsid'  = [wsid  EXCEPT ![nw + 1] = s]
+  /\ alive' = [alive EXCEPT ![nw + 1] = TRUE]
+  /\ UNCHANGED <<now, reg, hb, up, ghb, wanted, lost, rq, reported, cfg, wk>>
+
+\* a worker reports its endpoints - in time, or after it was given up and killed
+Report(w) ==
+  /\ Op("Report", "none")
+  /\ w \in 1 .. nw /\ ~reported[w]
+  /\ rq' = [rq EXCEPT ![Chan(w)] = Append(@, w)]
+  /\ reported' = [reported EXCEPT ![w] = TRUE]
+  /\ UNCHANGED <<now, reg, hb, up, ghb, wanted, lost, nw, wsid, alive, pend, cfg, wk>>
+
+\* _register, second half: the report is there - the session is registered with
+\* the endpoints read from the report channel
+Finish ==
+  /\ pend # 0 /\ rq[Chan(pend)] # <<>>
+  /\ LET s == wsid[pend] IN
+     /\ Op("Finish", s)
+     /\ reg' = reg \cup {s} /\ wanted' = wanted \cup {s}
+     /\ hb'  = [hb EXCEPT ![s] = now] /\ ghb' = [ghb EXCEPT ![s] = now]
+     /\ up'  = [up EXCEPT ![s] = TRUE]
+     /\ cfg' = [cfg EXCEPT ![s] = Head(rq[Chan(pend)])]
+     /\ wk'  = [wk EXCEPT ![s] = pend]
+  /\ rq' = [rq EXCEPT ![Chan(pend)] = Tail(@)]
+  /\ pend' = 0
+  /\ UNCHANGED <<now, lost, nw, wsid, alive, reported>>
+
+\* ... or it is not: 'worker startup failed', the worker is killed
+Timeout_ ==
+  /\ pend # 0 /\ rq[Chan(pend)] = <<>>
+  /\ Op("Timeout", wsid[pend])
+  /\ alive' = [alive EXCEPT ![pend] = FALSE]
+  /\ pend' = 0
+  /\ UNCHANGED <<now, reg, hb, up, ghb, wanted, lost, nw, wsid, rq, reported, cfg, wk>>
 
 Unregister(s) ==
-  /\ Op("Unregister", s)
+  /\ Op("Unregister", s) /\ pend = 0
   /\ s \in reg                         \* else: 'not registered', no change
   /\ LET gone == IF DevUnregisterAll THEN reg ELSE {s} IN
      /\ reg' = reg \ gone
      /\ up'  = [t \in Sessions |-> IF t \in gone THEN FALSE ELSE up[t]]
+     /\ alive' = [w \in W |-> IF \E t \in gone : wk[t] = w THEN FALSE ELSE alive[w]]
   /\ wanted' = wanted \ {s}
-  /\ UNCHANGED <<now, hb, ghb, lost>>
+  /\ UNCHANGED <<now, hb, ghb, lost, nw, wsid, rq, reported, pend, cfg, wk>>
 
 Heartbeat(s) ==
-  /\ Op("Heartbeat", s)
+  /\ Op("Heartbeat", s) /\ pend = 0
   /\ hb'  = IF s \notin reg THEN hb       \* unknown session: a warning, nothing else
             ELSE IF DevHeartbeatAll THEN [t \in Sessions |-> IF t \in reg THEN now ELSE hb[t]]
             ELSE [hb EXCEPT ![s] = now]
   /\ ghb' = IF s \in reg THEN [ghb EXCEPT ![s] = now] ELSE ghb
-  /\ UNCHANGED <<now, reg, up, wanted, lost>>
+  /\ UNCHANGED <<now, reg, up, wanted, lost, wvars>>
 
 Lookup(s) ==
-  /\ Op("Lookup", s)
-  /\ UNCHANGED <<now, reg, hb, up, ghb, wanted, lost>>
+  /\ Op("Lookup", s) /\ pend = 0
+  /\ UNCHANGED <<now, reg, hb, up, ghb, wanted, lost, wvars>>
 
 Tick ==
   /\ now < MaxT /\ now' = now + 1
-  /\ Op("Tick", "none")
-  /\ UNCHANGED <<reg, hb, up, ghb, wanted, lost>>
+  /\ Op("Tick", "none") /\ pend = 0
+  /\ UNCHANGED <<reg, hb, up, ghb, wanted, lost, wvars>>
 
 \* one pass of the monitor thread
 Monitor ==
-  /\ Op("Monitor", "none")
+  /\ Op("Monitor", "none") /\ pend = 0
   /\ LET late == Late(reg, hb, now)
          gone == IF late # {} /\ DevMonitorReapsAll THEN reg ELSE late IN
      /\ reg' = reg \ gone
      /\ up'  = [t \in Sessions |-> IF t \in gone THEN FALSE ELSE up[t]]
+     /\ alive' = [w \in W |-> IF \E t \in gone : wk[t] = w THEN FALSE ELSE alive[w]]
   /\ wanted' = wanted \ Late(wanted, ghb, now)
-  /\ UNCHANGED <<now, hb, ghb, lost>>
+  /\ UNCHANGED <<now, hb, ghb, lost, nw, wsid, rq, reported, pend, cfg, wk>>
 
 \* a side of session s publishes a message with the forward flag: it reaches
 \* the other sides through the session's proxy pubsubs - if they are up
 Send(s) ==
-  /\ Op("Send", s)
+  /\ Op("Send", s) /\ pend = 0
   /\ s \in wanted
-  /\ lost' = IF s \in reg /\ up[s] THEN lost ELSE lost \cup {s}
-  /\ UNCHANGED <<now, reg, hb, up, ghb, wanted>>
+  \* the sides of s talk through the endpoints the service handed out for s
+  /\ lost' = IF s \in reg /\ up[s] /\ cfg[s] = wk[s] /\ alive[wk[s]] THEN lost ELSE lost \cup {s}
+  /\ UNCHANGED <<now, reg, hb, up, ghb, wanted, wvars>>
 
-Next == \/ \E s \in Sessions : Register(s) \/ Unregister(s) \/ Heartbeat(s) \/ Lookup(s) \/ Send(s)
-        \/ Tick \/ Monitor
+Next == \/ \E s \in Sessions : Spawn(s) \/ Unregister(s) \/ Heartbeat(s) \/ Lookup(s) \/ Send(s)
+        \/ \E w \in W : Report(w)
+        \/ Finish \/ Timeout_ \/ Tick \/ Monitor
 
 Spec == Init /\ [][Next]_vars
 
@@ -107,6 +168,12 @@ TypeOK == /\ now \in 0 .. MaxT /\ reg \subseteq Sessions /\ wanted \subseteq Ses
           /\ lost \subseteq Sessions /\ ops \in 0 .. MaxOps
           /\ hb \in [Sessions -> 0 .. MaxT] /\ ghb \in [Sessions -> 0 .. MaxT]
           /\ up \in [Sessions -> BOOLEAN]
+          /\ nw \in 0 .. MaxW /\ pend \in 0 .. MaxW
+          /\ cfg \in [Sessions -> 0 .. MaxW] /\ wk \in [Sessions -> 0 .. MaxW]
+
+\* lookup only ever returns the endpoints of the session's own live channel worker;
+\* the late report of a dead worker is never handed to another session
+InvOwnEndpoints == \A s \in reg : cfg[s] = wk[s] /\ alive[wk[s]] /\ wsid[wk[s]] = s
 
 \* a live session stays registered and its proxy pubsubs stay up
 InvLiveRegistered == \A s \in wanted : s \in reg /\ up[s]
@@ -117,7 +184,7 @@ InvUpIffReg       == \A s \in Sessions : up[s] <=> s \in reg
 
 \* an event that concerns one session leaves the others alone
 ActIsolation ==
-  [][last' \in {"Register", "Unregister", "Heartbeat", "Lookup", "Send"} =>
+  [][last' \in {"Spawn", "Finish", "Timeout", "Report", "Unregister", "Heartbeat", "Lookup", "Send"} =>
        \A t \in Sessions \ {arg'} :
           (t \in reg' <=> t \in reg) /\ hb'[t] = hb[t] /\ up'[t] = up[t]]_vars
 
